@@ -8,6 +8,7 @@ package main
 //   * cbo.go's built-in type / built-in function tables
 //   * whether collectImports binds names imported without "as" (reads importNode.Names)
 //   * whether analyzeClass removes the class's own name from its dependency set
+//   * whether extractClassName reads Attribute / Subscript nodes through Value / Name (as ast_builder.go fills them)
 //   * the comparison operators of both assessRiskLevel functions
 //   * lcom.go's excluded decorator names and the receiver name ("self")
 
@@ -204,6 +205,9 @@ func init() {
 		ac := findFunc(p, "cbo.go", "CBOAnalyzer", "analyzeClass")
 		selfExcl := clsMentions(p, ac, "delete(dependencies, classNode.Name)")
 		fmt.Fprintf(&b, "(* analyzeClass removes the class's own name from its dependency set *)\nDefinition cbo_excludes_self : bool := %v.\n", selfExcl)
+		ec := findFunc(p, "cbo.go", "CBOAnalyzer", "extractClassName")
+		readsValue := clsMentions(p, ec, "node.Value") && clsMentions(p, ec, "node.Name") && !clsMentions(p, ec, "node.Left") && !clsMentions(p, ec, "node.Right")
+		fmt.Fprintf(&b, "(* extractClassName reads an Attribute / Subscript node where ast_builder.go puts its parts (Value, Name), not Left / Right *)\nDefinition cbo_reads_value_field : bool := %v.\n", readsValue)
 		neverPruned := clsVisitorsContinue(findFunc(p, "cbo.go", "CBOAnalyzer", "analyzeInstantiationAndAccess")) &&
 			clsVisitorsContinue(findFunc(p, "cbo.go", "CBOAnalyzer", "analyzeTypeHints")) &&
 			clsVisitorsContinue(findFunc(p, "cbo.go", "CBOAnalyzer", "collectClasses")) &&
@@ -217,7 +221,7 @@ func init() {
 		fmt.Fprintf(&b, "(* assessRiskLevel: cbo <op> LowThreshold -> low, else cbo <op> MediumThreshold -> medium, else high *)\nDefinition cbo_risk_low_cmp (a b : Z) : bool := %s.\nDefinition cbo_risk_medium_cmp (a b : Z) : bool := %s.\n\n", lo, me)
 		for _, f := range []string{"AnalyzeClasses", "analyzeClass", "analyzeInheritance", "analyzeTypeHints", "isTypeAnnotation",
 			"extractTypeAnnotationDependencies", "analyzeMethodTypeHints", "analyzeInstantiationAndAccess", "collectClasses",
-			"collectImports", "extractClassName", "shouldIncludeDependency", "extractClassNameFromCallNode", "isImportedDependency",
+			"collectImports", "extractClassName", "shouldIncludeDependency", "extractClassNameFromCallNode", "extractClassNameFromAttribute", "isImportedDependency",
 			"assessRiskLevel", "walkNode", "initializeBuiltinTypes"} {
 			recordDigest(p, "cbo.go", "CBOAnalyzer", f)
 		}
